@@ -14,7 +14,7 @@ import (
 func init() {
 	register(&Spec{ID: "C12", Title: "Logical channels are isolated and correctly routed under concurrency", Run: runC12,
 		Meta: core.Meta{
-			Explanation: "Lockset and routing rules; schedules are not explored. R12.1 (E-LOCK, guarded-by table confirmed by reading): Conn.tdsChannels is read only under tdsChannelsLock (R or W) and written only under W (objects under construction exempt); Conn.tdsChannelCurFreeId is touched only through sync/atomic or under W; Channel.closed is read under the channel's RWMutex and written under W; the hook slices are accessed under one mutex. The must-lockset is computed per function over SSA (Lock/RLock add, Unlock/RUnlock remove, deferred unlocks keep the lock to the exit, unexported callees inherit the meet over their call sites). R12.2: in Conn.ReadFrom the receiver of WritePacket is the comma-ok result of tdsChannels[int(packet.Header.Channel)] for the packet just read, and the !ok edge reports on Conn.errCh and continues. R12.3: sendPacket stamps Header.Channel from channelId and Header.PacketNr from curPacketNr on the channelId > 0 edge and advances curPacketNr by one modulo 2^bits(PacketNr). R12.4: NewChannel registers the channel under the id it stores in channelId; Close deletes that id under the write lock. R12.5: the set-up acknowledgement test in NewChannel uses a type assertion that some producer can satisfy and is followed by the PROTACK test. R12.7: the id returned by getValidChannelId is computed from the result of the atomic add on tdsChannelCurFreeId (or is the id of the recursive attempt) and the counter is never read by a separate atomic load. R12.8 = R01.7: Packet.WriteTo hands the serialised packet to the transport in exactly one Write (channels share the transport without a send lock; two writes let another channel's packet land between header and body). R12.9: no `go` statement occurs in any function statically reachable from (*Conn).ReadFrom — a hand-over finished by a helper goroutine lets packages of one channel overtake each other. R12.6: WritePacket tests `closed` under the channel lock before it touches the queues. R12.4 also requires that the registration in tdsChannels dominates the sending of the set-up packet (the acknowledgement can be routed as soon as the packet is out).",
+			Explanation: "Lockset and routing rules; schedules are not explored. R12.1 (E-LOCK, guarded-by table confirmed by reading): Conn.tdsChannels is read only under tdsChannelsLock (R or W) and written only under W (objects under construction exempt); Conn.tdsChannelCurFreeId is touched only through sync/atomic or under W; Channel.closed is read under the channel's RWMutex and written under W; the hook slices are accessed under one mutex. The must-lockset is computed per function over SSA (Lock/RLock add, Unlock/RUnlock remove, deferred unlocks keep the lock to the exit, unexported callees inherit the meet over their call sites). R12.2: in Conn.ReadFrom the receiver of WritePacket is the comma-ok result of tdsChannels[int(packet.Header.Channel)] for the packet just read, and the !ok edge reports on Conn.errCh and continues. R12.3: sendPacket stamps Header.Channel from channelId and Header.PacketNr from curPacketNr on the channelId > 0 edge and advances curPacketNr by one modulo 2^bits(PacketNr). R12.4: NewChannel registers the channel under the id it stores in channelId; Close deletes that id under the write lock. R12.5: the set-up acknowledgement test in NewChannel uses a type assertion that some producer can satisfy and is followed by the PROTACK test. R12.7: the id returned by getValidChannelId is computed from the result of the atomic add on tdsChannelCurFreeId (or is the id of the recursive attempt) and the counter is never read by a separate atomic load. R12.8 = R01.7: Packet.WriteTo hands the serialised packet to the transport in exactly one Write (channels share the transport without a send lock; two writes let another channel's packet land between header and body). R12.9: no `go` statement occurs in any function statically reachable from (*Conn).ReadFrom — a hand-over finished by a helper goroutine lets packages of one channel overtake each other. R12.10 = R14.4 (every path of the reader loop with a completely received packet reaches WritePacket or reports the unknown channel on Conn.errCh — no kind of packet is dropped silently). R12.6: WritePacket tests `closed` under the channel lock before it touches the queues. R12.4 also requires that the registration in tdsChannels dominates the sending of the set-up packet (the acknowledgement can be routed as soon as the packet is out).",
 			NotDecided:  "Interleavings and data races on fields used by one goroutine per channel by contract (curPacketNr, CurrentHeaderType, packetSize) are not decided; the race detector is another technique family.",
 			Assumptions: []string{"sync.RWMutex / sync/atomic semantics", "fields outside the guarded-by table are confined to one goroutine by the library's contract"},
 		}})
@@ -40,6 +40,8 @@ func runC12(r *core.Run) {
 	r.Rule("R12.8", "a packet reaches the shared transport in one Write call (R01.7)", 1, false)
 	r.Rule("R12.9", "packages are handed over by the reader goroutine itself, one after the other (no goroutine is started on the reader path)", 1, false)
 	defer c12NoGoOnReaderPath(r)
+	r.Rule("R12.10", "every completely received packet is routed or, for an unknown channel, reported (R14.4)", 4, false)
+	defer c14Conn(r, "R12.10")
 
 	table := []guardedField{
 		{p.Field("tds", "Conn", "tdsChannels"), "tdsChannelsLock", false, true},
@@ -50,7 +52,7 @@ func runC12(r *core.Run) {
 	}
 	c12Guarded(r, la, table)
 	c12Routing(r, "R12.2")
-	c12Stamping(r)
+	c12Stamping(r, "R12.3")
 	c12Registration(r, la)
 	c12Setup(r)
 	c12ClosedCheck(r, la)
@@ -303,7 +305,7 @@ func c12Routing(r *core.Run, rule string) {
 	r.Check(okMiss, rule, "Conn.ReadFrom: unknown channel reported and ignored", fn.Pos(), "send on Conn.errCh, then continue", whyMiss)
 }
 
-func c12Stamping(r *core.Run) {
+func c12Stamping(r *core.Run, rule string) {
 	p := r.Prog
 	fn := p.Func("tds", "Channel", "sendPacket")
 	fChannelId := p.Field("tds", "Channel", "channelId")
@@ -316,7 +318,7 @@ func c12Stamping(r *core.Run) {
 		write = c
 	}
 	if write == nil {
-		r.Unknown("R12.3", "sendPacket", fn.Pos(), "Packet.WriteTo call not found")
+		r.Unknown(rule, "sendPacket", fn.Pos(), "Packet.WriteTo call not found")
 		return
 	}
 	stores := func(field *types.Var) []*ssa.Store {
@@ -348,14 +350,14 @@ func c12Stamping(r *core.Run) {
 			okCh = true
 		}
 	}
-	r.Check(okCh, "R12.3", "sendPacket: Header.Channel := channelId", fn.Pos(), "stored from channelId on the channelId > 0 edge", whyCh)
+	r.Check(okCh, rule, "sendPacket: Header.Channel := channelId", fn.Pos(), "stored from channelId on the channelId > 0 edge", whyCh)
 	okNr, whyNr := false, "Header.PacketNr is not set from curPacketNr before the write"
 	for _, st := range stores(fHdrNr) {
 		if f, _ := core.FieldLoad(core.Strip(st.Val)); f == fCur && underIdPositive(st) {
 			okNr = true
 		}
 	}
-	r.Check(okNr, "R12.3", "sendPacket: Header.PacketNr := curPacketNr", fn.Pos(), "stored from curPacketNr on the channelId > 0 edge", whyNr)
+	r.Check(okNr, rule, "sendPacket: Header.PacketNr := curPacketNr", fn.Pos(), "stored from curPacketNr on the channelId > 0 edge", whyNr)
 	// increment modulo 2^bits
 	bitsOf := func(t types.Type) int64 {
 		if b, ok := t.Underlying().(*types.Basic); ok {
@@ -398,7 +400,7 @@ func c12Stamping(r *core.Run) {
 	if n > 1 {
 		okInc, whyInc = false, "curPacketNr is advanced more than once per packet"
 	}
-	r.Check(okInc, "R12.3", "sendPacket: curPacketNr advances by one modulo 2^bits(PacketNr)", fn.Pos(), "(curPacketNr + 1) % "+itoa(mod), whyInc)
+	r.Check(okInc, rule, "sendPacket: curPacketNr advances by one modulo 2^bits(PacketNr)", fn.Pos(), "(curPacketNr + 1) % "+itoa(mod), whyInc)
 }
 
 func itoa(i int64) string {
